@@ -173,7 +173,10 @@ def monitorProbed (script : List Cmd) (iters : List Iter) (d : Nat) (answersOnly
       -- repaired: since the repairs of D31, D33, D34 a late iteration, a shared probe or a
       -- competing probe that was read explain nothing by themselves; their labels stay so that a
       -- regression is named)
-      if staleSrv then some s!"old-name-used-after-rename {what}"
+      -- (since the repair of D37 an SRV whose target changed after a response was read carries the
+      -- NEW host name: what is left is that it is sent - the service is still Announced - while
+      -- the re-targeted record is being probed again: D45)
+      if staleSrv then some s!"re-targeted-SRV-answered-while-it-is-probed-again {what}"
       else if renamedName && probedBy asked p.t then some s!"record-missing-from-first-probe-after-rename {what}"
       else if sameInst then some s!"answered-while-address-still-probing {what}"
       else if timeJump then some s!"announced-with-fewer-than-three-probes-late-iteration {what}"
